@@ -37,6 +37,8 @@ def pActs : Nat → P (List Act)
     else if k == "K" then Act.call <$> pActs d
     -- F: `c.Fail(err)` (app handlers; router-level handlers: Abort + JSON) — a call that aborts, then writes
     else if k == "F" then pure (Act.call [.abort, .write])
+    -- T: overrun the budget of a timeout middleware in front of the chain — the request context is cancelled from then on
+    else if k == "T" then pure .cancel
     else failure
 
 structure Res where
